@@ -46,6 +46,8 @@ class OrderedSet(set):
         self._guard[0] += 1
         if self._guard[0] > ITER_LIMIT:
             raise Hang()
+        if self._mode == "native":
+            return iter(list(set.__iter__(self)))
         items = sorted(set.__iter__(self), key=self._key)
         if self._mode == "reverse":
             items.reverse()
@@ -216,7 +218,7 @@ def _gen_scripts(rng, scn, hist):
     safe = True
     scripts = []
     ntb = rng.randint(1, 3)
-    maxlen = rng.choice([4, 8, 12, 20, 30])
+    maxlen = rng.choice([8, 12, 20, 30, 30])
     level = {}
 
     def note(k):
@@ -234,7 +236,7 @@ def _gen_scripts(rng, scn, hist):
 
     for _t in range(ntb):
         ops = []
-        for _ in range(rng.randint(2, maxlen)):
+        for _ in range(rng.randint(3, maxlen)):
             r = rng.random()
             if r < 0.30:
                 q = rng.random()
@@ -299,7 +301,7 @@ def _gen_scripts(rng, scn, hist):
                 if rng.random() < 0.08:
                     els.append(edge_elem(auto_clks + hand_clks + data))
                     note("op:multi-element-wait")
-                if unsafe and rng.random() < 0.7:
+                if unsafe and rng.random() < 0.85:
                     els.append(("delay", rng.randint(0, 4 * scn.maxperiod)))
                     note("op:edge+delay")
                 elif unsafe:
@@ -313,19 +315,24 @@ def _gen_scripts(rng, scn, hist):
                     note("op:multi-element-wait")
                 els = [("changed", s) for s in sigs]
                 if not all(any(s is c for c in auto_clks) for s in sigs):
-                    if rng.random() < 0.7:
+                    if rng.random() < 0.85:
                         els.append(("delay", rng.randint(0, 4 * scn.maxperiod)))
                         note("op:changed+delay")
                     else:
                         safe = False
                 ops.append(("wait", els + [("sample", e) for e in samples()]))
                 note("op:changed")
-        scripts.append(ops)
+        withgets = []
+        for op in ops:
+            withgets.append(op)
+            if op[0] in ("tick", "wait") and rng.random() < 0.5 and len(withgets) < 30:
+                withgets.append(("get", rng.choice(scn.sigs) if rng.random() < 0.6 else g.expr(1)))
+        scripts.append(withgets[:30])
     scn.tbs = scripts
     if safe and rng.random() < 0.5:
         scn.mode = ("run",)
     else:
-        scn.mode = ("until", rng.randint(3, 40) * scn.maxperiod + rng.randint(0, scn.maxperiod))
+        scn.mode = ("until", rng.randint(8, 60) * scn.maxperiod + rng.randint(0, scn.maxperiod))
     hist["mode:" + scn.mode[0]] = hist.get("mode:" + scn.mode[0], 0) + 1
     hist[f"testbenches:{ntb}"] = hist.get(f"testbenches:{ntb}", 0) + 1
 
@@ -496,6 +503,69 @@ def gen_scenario_d(rng, hist):
     return scn
 
 
+class MemTop(Elaboratable):
+    def __init__(self, cds, mem, acc, rp):
+        self.cds, self.mem, self.acc, self.rp = cds, mem, acc, rp
+
+    def elaborate(self, platform):
+        from amaranth.hdl import Module
+        m = Module()
+        for cd in self.cds:
+            m.domains += cd
+        m.submodules.mem = self.mem
+        m.d[self.cds[-1].name] += self.acc.eq(self.acc + self.rp.data)
+        return m
+
+
+def gen_scenario_m(rng, hist):
+    """implementation only (memories are not in the C08 model): a memory written in one domain and read in
+    another (and combinationally), clocks that often coincide; rows are part of the observations"""
+    from amaranth.hdl import Signal, ClockDomain, signed, unsigned
+    from amaranth.lib.memory import Memory
+    from .. import gen_expr
+    cds = [ClockDomain("sync", clk_edge=rng.choice(["pos", "neg"]), reset_less=True),
+           ClockDomain("d1", clk_edge=rng.choice(["pos", "neg"]), reset_less=rng.random() < 0.5)]
+    w = rng.randint(1, 6)
+    shape = signed(w) if rng.random() < 0.3 else unsigned(w)
+    depth = rng.choice([1, 2, 3, 4, 5, 8])
+    mem = Memory(shape=shape, depth=depth, init=[gen_expr.rand_value(rng, shape) for _ in range(rng.randint(0, depth))])
+    gran = rng.choice([None, None, 1, w]) if not shape.signed else None
+    wps = [mem.write_port(domain="sync", granularity=gran)]
+    if rng.random() < 0.4:
+        wps.append(mem.write_port(domain="sync"))          # same domain: one process, fixed port order
+    rp = mem.read_port(domain="d1")
+    rs = mem.read_port(domain="sync", transparent_for=[wps[0]] if rng.random() < 0.5 else [])
+    rc = mem.read_port(domain="comb")
+    acc = Signal(8, name="acc")
+    scn = Scn()
+    scn.kind = "M"
+    scn.nomodel = True
+    scn.cds = cds
+    scn.top = MemTop(cds, mem, acc, rp)
+    scn.users = []
+    sigs = [cd.clk for cd in cds] + [cd.rst for cd in cds if cd.rst is not None]
+    port_in = []
+    for wp in wps:
+        port_in += [wp.addr, wp.data, wp.en]
+    port_in += [rp.addr, rp.en, rs.addr, rs.en, rc.addr]
+    scn.sigs = sigs + port_in + [rp.data, rs.data, rc.data, acc]
+    scn.rows = [mem.data[i] for i in range(depth)]
+    scn.settable = [s for s in port_in if len(s) > 0]
+    _pick_clocks(rng, scn, 2)
+    if rng.random() < 0.6:
+        # both domains clocked, same period and phase: every edge coincides
+        p, ph = scn.clocks[0][1], scn.clocks[0][2]
+        scn.clocks = [(0, p, ph), (1, p if rng.random() < 0.7 else 2 * p, ph)]
+        scn.auto, scn.hand = [0, 1], []
+        scn.maxperiod = max(c[1] for c in scn.clocks)
+    _gen_scripts(rng, scn, hist)
+    for script in scn.tbs:
+        for _ in range(rng.randint(1, 4)):
+            script.insert(rng.randint(0, len(script)), ("get", rng.choice(scn.rows)))
+    hist["memory"] = hist.get("memory", 0) + 1
+    return scn
+
+
 # ------------------------------------------------------------------------------------------------
 # running a scenario on the real engine
 
@@ -521,14 +591,14 @@ def run_impl(scn, mode, oseed):
     trace = []
     for t, script in enumerate(scn.tbs):
         sim.add_testbench(_mk_testbench(t, script, scn.cds, trace))
-    if mode != "native":
-        install_order(sim, added, mode, oseed)
+    # "native": the engine's own set order, only counted (so that a non-terminating loop is detected)
+    install_order(sim, added, mode, oseed)
     try:
         if scn.mode[0] == "run":
             sim.run()
         else:
             sim.run_until(Period(fs=scn.mode[1]))
-        final = [int(eng.get_value(s)) for s in scn.sigs]
+        final = [int(eng.get_value(s)) for s in scn.sigs + getattr(scn, "rows", [])]
         return ("ok", trace, final)
     except Hang:
         return ("hang", trace, [])
@@ -687,17 +757,16 @@ def describe(scn):
 # ------------------------------------------------------------------------------------------------
 # jobs (worker processes)
 
-def scenario_job(args):
-    seed, n_scn, n_perm, exe = args
-    rng = random.Random(seed)
-    hist = {}
-    cases = []
+def gen_job_scenarios(rng, hist, n_scn, cases=None):
+    """the scenarios of one job, in order: [(index, variant, scenario)]"""
     scns = []
     for k in range(n_scn):
         r = rng.random()
         try:
-            if r < 0.55:
+            if r < 0.5:
                 scns.append((k, None, gen_scenario_a(rng, hist)))
+            elif r < 0.58:
+                scns.append((k, None, gen_scenario_m(rng, hist)))
             elif r < 0.9:
                 a, b = gen_scenario_b(rng, hist)
                 scns.append((k, "circuit", a))
@@ -707,22 +776,40 @@ def scenario_job(args):
         except Exception as e:
             import traceback
             hist["generator_error:" + errkind(e)] = hist.get("generator_error:" + errkind(e), 0) + 1
-            cases.append({"seed": seed, "index": k, "gen_error": traceback.format_exc()[-800:]})
+            if cases is not None:
+                cases.append({"index": k, "gen_error": traceback.format_exc()[-800:]})
+    return scns
+
+
+def scenario_job(args):
+    seed, n_scn, n_perm, exe = args
+    rng = random.Random(seed)
+    hist = {}
+    cases = []
+    scns = gen_job_scenarios(rng, hist, n_scn, cases)
+    for c in cases:
+        c["seed"] = seed
     reqs = []
     for k, variant, scn in scns:
-        case = {"seed": seed, "index": k, "variant": variant, "desc": describe(scn)}
+        case = {"seed": seed, "index": k, "variant": variant, "desc": describe(scn), "per_job": n_scn}
         orders = [("sorted", 0), ("native", 0), ("reverse", 0)] + [("shuffle", rng.getrandbits(32)) for _ in range(n_perm)]
         runs = []
         try:
             for mode, oseed in orders:
                 runs.append(((mode, oseed), show_run(run_impl(scn, mode, oseed))))
+                if runs[-1][1].startswith("hang"):
+                    break
             case["runs"] = runs
-            case["req"] = ser_scenario(scn)
+            if getattr(scn, "nomodel", False):
+                case["nomodel"] = True
+                case["req"] = repr(describe(scn)) + repr([[str(op)[:80] for op in sc] for sc in scn.tbs])
+            else:
+                case["req"] = ser_scenario(scn)
         except Exception as e:
             import traceback
             case["harness_error"] = traceback.format_exc()[-1500:]
         cases.append(case)
-        if "req" in case:
+        if "req" in case and not case.get("nomodel"):
             reqs.append(case)
     if reqs:
         drv = common.Driver(exe)
@@ -802,8 +889,11 @@ def time_job(args):
             sim.add_testbench(sleeper)
             sim.add_testbench(ticker)
             if rng.random() < 0.5:
-                sim.run()
+                # like `sim.run()`, but bounded: everything below must have finished long before
+                bound = (3 * pf if phase is None else phase.femtoseconds) + (ntog + 8) * pf + sum(delays) + 1
+                sim.run_until(Period(fs=bound))
                 case["until"] = None
+                case["complete"] = (len(toggles) == ntog and len(wakes) == len(delays) and len(ticks) == 3)
             else:
                 T = rng.randint(1, (ntog + 1) * pf)
                 sim.run_until(Period(fs=T))
@@ -829,7 +919,8 @@ def time_job(args):
 # judging
 
 def judge_scenario(chk, case, pair):
-    base = {"job_seed": case["seed"], "index": case["index"], "variant": case.get("variant"), "scenario": case.get("desc")}
+    base = {"job_seed": case["seed"], "index": case["index"], "variant": case.get("variant"), "scenario": case.get("desc"),
+            "per_job": case.get("per_job")}
     if "gen_error" in case:
         chk.hist("generator_errors", 1)
         return
@@ -857,6 +948,12 @@ def judge_scenario(chk, case, pair):
                                request=case["req"][:8000], classes=[F_BROKEN]))
         else:
             chk.violation(f"simulating a legal scenario raises {ref.split(' ')[0]}", dict(base, kind="raises", trace=ref[:2000], request=case["req"][:8000], classes=[]))
+        return
+    if case.get("nomodel"):
+        # memories: order-independence on the implementation only
+        ntr = ref.count(";") + 1 if ref.split("|")[0] else 0
+        chk.hist("memory_scenarios", "ok")
+        chk.distinct(case["req"], ntr >= 3)
         return
     resp = case.get("resp", "")
     if not resp.startswith("c08 "):
@@ -891,7 +988,7 @@ def judge_scenario(chk, case, pair):
                           dict(base, kind="replace", circuit=other[1][:3000], process=ref[:3000], request=case["req"][:8000], classes=[]))
             return
     ntr = ref.count(";") + 1 if ref.split("|")[0] else 0
-    chk.hist("trace_length", min(ntr // 10 * 10, 100))
+    chk.hist("observations_per_trace", f"{min(ntr // 10 * 10, 100):03d}+")
     nontrivial = ntr >= 3
     chk.distinct(case["req"], nontrivial)
     if nontrivial:
@@ -911,6 +1008,11 @@ def judge_time(chk, case):
         return
     chk.count(1)
     chk.hist("period_unit", case["how"])
+    if case.get("complete") is False:
+        chk.violation(f"with an added clock of {case['period_fs']} fs the testbenches waiting for {case['ntog']} toggles, "
+                      f"{len(case['wakes'])} delays and 3 ticks have not finished after {case['ntog'] + 8} periods",
+                      dict(case, kind="stuck", classes=[]))
+        return
     pe = Fraction(*case["period_exact"])
     if case["period_fs"] != exact_round(pe):
         # only a violation when the exact value is not a tie broken differently by float arithmetic
@@ -944,13 +1046,45 @@ def judge_time(chk, case):
     chk.distinct(("time", case["period_fs"], case["phase_fs"], T), True)
 
 
+def collision_probe():
+    """outside DisjointWrites: write ports of two domains hit one row at a coincident edge. The real engine
+    lets the last writer win, so the row depends on the order: recorded as the witness of the hypothesis."""
+    from amaranth.hdl import Module, ClockDomain, Period
+    from amaranth.lib.memory import Memory
+    from amaranth.sim import Simulator
+    res = {}
+    for mode in ("sorted", "reverse"):
+        m = Module()
+        m.domains.a = ClockDomain()
+        m.domains.b = ClockDomain()
+        m.submodules.mem = mem = Memory(shape=8, depth=2, init=[0, 0])
+        wa, wb = mem.write_port(domain="a"), mem.write_port(domain="b")
+        sim = Simulator(m)
+        sim.add_clock(Period(ns=10), domain="a")
+        sim.add_clock(Period(ns=10), domain="b")
+        out = []
+
+        async def tb(ctx):
+            ctx.set(wa.data, 0xAA)
+            ctx.set(wa.en, 1)
+            ctx.set(wb.data, 0x55)
+            ctx.set(wb.en, 1)
+            await ctx.tick("a")
+            out.append(int(ctx.get(mem.data[0])))
+        sim.add_testbench(tb)
+        install_order(sim, [], mode, 0)
+        sim.run()
+        res[mode] = out
+    return res
+
+
 def run(chk):
     chk.lean()
     quick = chk.tier == "quick"
     rng = chk.rng
     n_perm = 8 if quick else 64
-    n_jobs = 48 if quick else 400
-    per_job = 10 if quick else 18
+    n_jobs = 96 if quick else 500
+    per_job = 12 if quick else 18
     workers = min(16, os.cpu_count() or 4)
     args = [(rng.getrandbits(48), per_job, n_perm, EXE) for _ in range(n_jobs)]
     targs = [(rng.getrandbits(48), 40 if quick else 150, EXE) for _ in range(16 if quick else 64)]
@@ -964,6 +1098,13 @@ def run(chk):
         for out in ex.map(time_job, targs, chunksize=1):
             for c in out:
                 judge_time(chk, c)
+    try:
+        chk.extra["hypothesis_witness"] = {
+            "what": "memory row written by write ports of two domains at a coincident edge (DisjointWrites does not hold): "
+                    "the value depends on the process order; this is the stated hypothesis of delta_perm, not a finding",
+            "row_by_order": collision_probe()}
+    except Exception as e:
+        chk.extra["hypothesis_witness"] = {"error": errkind(e)}
     chk.cov["rule"] = (
         "A: designs of the C03 generator (1-3 domains, module trees, wrappers) + 0-3 user processes in the two documented forms "
         "(driving fresh signals or design inputs) + added clocks with periods 2..25 fs or k*1000/k*10^6 (+odd) fs and arbitrary/default phases "
@@ -972,12 +1113,45 @@ def run(chk):
         "once with a random subset replaced by processes. D: directed testbench-order and tick-sampling scripts on a counter. "
         f"Every scenario runs under native, canonical, reverse and {n_perm} shuffled iteration orders of _processes/pending/_active_triggers "
         "(re-drawn at every iteration); traces = every value read, elapsed_time() in fs at every wake-up, final value of every signal. "
+        "M (implementation only): a memory with 1-2 write ports in one domain, read ports in another domain, in the same domain "
+        "(transparent or not) and combinational, clocks that mostly coincide; rows are observed and part of the final state. "
         "T: Period(fs/ps/ns/us/Hz/kHz/MHz/GHz/arithmetic) vs exact rationals, toggle instants via edge/changed, delay chains, run_until deadlines. "
         "distinct = distinct request text; non-trivial = at least 3 observations")
     chk.assumptions += [
-        "memories are not part of the C08 model (C11 models the write queue); their order-independence is explored on the implementation only through C11's walks",
+        "memories are not part of the C08 model (C11 models the write queue); their order-independence is explored on the implementation only (stream M)",
+        "write ports of different domains that hit one row at a coincident edge are outside DisjointWrites (last writer wins in the real engine): see coverage.hypothesis_witness",
+        "periods below 2 fs (half period 0: simulated time never advances) and above 10^13 fs (Period / 2 goes through a float above 2^53 fs) are not generated",
         "the iteration order of the local set `nearest_wakers` inside _PyTimeline.advance cannot be replaced from outside; it is left native",
         "a compiled synchronous process starts from slots[i].next; the model starts from curr (equal at the start of every delta)",
         "DisjointWrites is a hypothesis for user processes (two processes never drive one signal in generated scenarios)",
         "Python's coroutine machinery, BrokenTrigger and VCD writing are not modelled",
     ]
+
+
+def replay(chk, path):
+    """re-run the scenario of a replay file: ./check C08 --replay replays/C08-quick-1-0.json"""
+    import json
+    chk.lean()
+    rep = json.load(open(path))["replay"]
+    if "job_seed" not in rep or rep.get("index") is None:
+        print("replay: not a scenario replay (time-stream cases carry their data in the file)")
+        return common.EXIT_OK
+    rng = random.Random(rep["job_seed"])
+    scns = gen_job_scenarios(rng, {}, rep.get("per_job") or (rep["index"] + 1))
+    hit = [scn for k, v, scn in scns if k == rep["index"] and v == rep.get("variant")]
+    if not hit:
+        print("replay: scenario not regenerated")
+        return common.EXIT_INFRA
+    scn = hit[0]
+    orders = [tuple(rep[k]) for k in ("order_a", "order_b") if k in rep] or [("sorted", 0), ("reverse", 0)]
+    runs = [(o, show_run(run_impl(scn, o[0], o[1]))) for o in orders]
+    for o, tr in runs:
+        print("impl", o, tr[:1500])
+    bad = any(tr != runs[0][1] for _o, tr in runs)
+    if not getattr(scn, "nomodel", False):
+        d = common.kv(chk.driver.ask([ser_scenario(scn)])[0])
+        print("model", d.get("model", "")[:1500])
+        print("spec ", d.get("spec", "")[:1500])
+        bad = bad or d.get("model") != runs[0][1] or (d.get("spec") != "na" and d.get("spec") != runs[0][1])
+    print("replay:", "still failing" if bad else "passes now")
+    return common.EXIT_VIOLATION if bad else common.EXIT_OK
